@@ -166,6 +166,32 @@ fn c05_one<B: BF + Send + Sync, H: ElementHasher<BaseField = B> + Sync + 'static
             }
         }
     }
+    if !c04 {
+        // component-header sweep: the length prefix and the first bytes of every length-prefixed
+        // component (commitments, query values / openings, both halves of the out-of-domain frame,
+        // FRI layers, remainder) and the bytes between components take small, boundary and random
+        // values — these are the counts, widths and depths the component parsers trust
+        let mut vals: Vec<u8> = (0..=17u8).collect();
+        vals.extend([0x1f, 0x20, 0x3f, 0x40, 0x41, 0x7f, 0x80, 0x81, 0xfe, 0xff]);
+        let vecs = proof_vectors(&h);
+        let mut positions: Vec<usize> = Vec::new();
+        for v in &vecs {
+            for p in v.prefix_pos.saturating_sub(1)..(v.data_pos + 3).min(v.data_pos + v.len) { positions.push(p); }
+        }
+        let n = h.bytes.len();
+        for p in n.saturating_sub(10)..n { positions.push(p); }
+        positions.sort(); positions.dedup();
+        for pos in positions {
+            for &v in &vals {
+                if pos >= h.bytes.len() || v == h.bytes[pos] { continue; }
+                let mut m = h.bytes.clone();
+                m[pos] = v;
+                let (pi, o) = (h.pub_in.clone(), h.opts.clone());
+                out.count("mutation:component-header-sweep");
+                out.case(&format!("{tag} {field} {hname} comp:{pos}={v} {}", hex(&m)), "~^(ok|err-deser|err-verify)$", move || with_timeout(move || decode_verify::<B, H>(m, pi, &o).0));
+            }
+        }
+    }
     if c04 {
         // field-level edits: re-encode the proof with one component changed
         let mut variants: Vec<(&'static str, Proof)> = Vec::new();
@@ -552,10 +578,19 @@ fn c03t_one<B: BF + Send + Sync, H: ElementHasher<BaseField = B> + Sync + 'stati
     let fri_opts = h.opts.build().to_fri_options();
     let nseg = if aux { 2 } else { 1 };
     let Ok((tc, cc, fc)) = h.proof.commitments.clone().parse::<H>(nseg, fri_opts.num_fri_layers(lde)) else { return; };
+    // commitments in the order the verifier absorbs them; equal digests can occur (e.g. an all-zero
+    // trace column and an all-zero composition column have the same root), so every label is handed
+    // out once, in order
+    let mut names: Vec<(String, String)> = Vec::new();
+    for (i, t) in tc.iter().enumerate() { names.push((hex(&t.as_bytes()), format!("R:trace{i}"))); }
+    names.push((hex(&cc.as_bytes()), "R:constraint".into()));
+    for (i, t) in fc.iter().enumerate() { names.push((hex(&t.as_bytes()), format!("R:fri{i}"))); }
+    let used = std::cell::RefCell::new(vec![false; names.len()]);
     let label = move |d: &str| -> String {
-        for (i, t) in tc.iter().enumerate() { if hex(&t.as_bytes()) == d { return format!("R:trace{i}"); } }
-        if hex(&cc.as_bytes()) == d { return "R:constraint".into(); }
-        for (i, t) in fc.iter().enumerate() { if hex(&t.as_bytes()) == d { return format!("R:fri{i}"); } }
+        let mut u = used.borrow_mut();
+        for (k, (dig, name)) in names.iter().enumerate() {
+            if !u[k] && dig == d { u[k] = true; return name.clone(); }
+        }
         "R:other".into()
     };
     let acceptable = AcceptableOptions::OptionSet(vec![h.opts.build()]);
